@@ -160,6 +160,28 @@ class C04(runner.Prop):
                         ctx.fail('accessor/slice_concat', f'{acc!r} k={k}')
                     elif b(a(tree)) is not leaf:
                         ctx.fail('accessor/compose', f'{acc!r} k={k}')
+                # the other spellings of concatenation: entry + accessor, accessor + entry, entry + entry; an
+                # accessor built from an iterator; anything else is refused
+                if len(acc) >= 1:
+                    combos = {'entry+accessor': lambda: acc[0] + acc[1:], 'accessor+entry': lambda: acc[:-1] + acc[-1],
+                              'from_iterator': lambda: optree.PyTreeAccessor(iter(tuple(acc))),
+                              'from_list': lambda: optree.PyTreeAccessor(list(acc))}
+                    if len(acc) >= 2:
+                        combos['entry+entry'] = lambda: (acc[0] + acc[1]) + acc[2:]
+                    for cname, mk in combos.items():
+                        try:
+                            built = mk()
+                        except Exception as e:  # noqa: BLE001
+                            ctx.fail(f'accessor/{cname}_raises', f'{acc!r}: {type(e).__name__}: {e}')
+                            continue
+                        if not isinstance(built, optree.PyTreeAccessor) or built != acc or hash(built) != hash(acc) or built(tree) is not leaf:
+                            ctx.fail(f'accessor/{cname}', f'{built!r} vs {acc!r}')
+                    for bad in (lambda: acc + 5, lambda: acc[0] + 'x'):
+                        try:
+                            bad()
+                            ctx.fail('accessor/concat_with_non_entry_accepted', f'{acc!r}')
+                        except TypeError:
+                            pass
                 # codify
                 code_ok = all(type(ent) is not optree.FlattenedEntry and key_literal(ent.entry) for ent in acc)
                 if code_ok:
